@@ -235,9 +235,22 @@ package aml
 //@   ensures fresh: o != nil && o.opcode == opcode && o.tableHandle == tableHandle && o.parentIndex == InvalidIndex && o.prevSiblingIndex == InvalidIndex && o.nextSiblingIndex == InvalidIndex && o.firstArgIndex == InvalidIndex && o.lastArgIndex == InvalidIndex && isnil(o.value)
 
 // lookups never index out of range or dereference nil, whatever the expression bytes are
+// ghost log of downward (relative) lookups: which scope, which bytes, which answer
+//@ ghost relCalls uintptr
+//@ ghost relScope map[uintptr]uint32
+//@ ghost relPtr map[uintptr]uintptr
+//@ ghost relLen map[uintptr]int
+//@ ghost relRes map[uintptr]uint32
 //@ func (tree *ObjectTree) findRelative(scopeIndex uint32, expr []byte) (r uint32)
 //@   property C13 C12
 //@   requires wfTree(tree) && live(tree, scopeIndex)
+//@   at entry: ghost relScope = upd(relScope, relCalls, scopeIndex)
+//@   at entry: ghost relPtr = upd(relPtr, relCalls, dataptr(expr))
+//@   at entry: ghost relLen = upd(relLen, relCalls, len(expr))
+//@   at entry: ghost relCalls = relCalls + 1
+//@   at return: ghost relRes = upd(relRes, relCalls - 1, r)
+//@   modifies relCalls, relScope, relPtr, relLen, relRes
+//@   ensures logged: relCalls == old(relCalls) + 1 && relScope == upd(old(relScope), old(relCalls), scopeIndex) && relPtr == upd(old(relPtr), old(relCalls), dataptr(expr)) && relLen == upd(old(relLen), old(relCalls), len(expr)) && relRes == upd(old(relRes), old(relCalls), r)
 //@   ensures r == InvalidIndex || live(tree, r)
 //@   loop 1 (segIndex < exprLen) invariant 0 <= segIndex && live(tree, scopeIndex) && exprLen == len(expr)
 //@   loop 2 (segIndex < exprLen &&) invariant 0 <= segIndex && live(tree, scopeIndex) && exprLen == len(expr)
@@ -250,8 +263,14 @@ package aml
 //@   requires wfTree(tree) && (scopeIndex == InvalidIndex || live(tree, scopeIndex)) && live(tree, 0)
 //@   ensures r == InvalidIndex || live(tree, r)
 //@   ensures root: len(expr) == 1 && expr[0] == 92 && scopeIndex != InvalidIndex ==> r == 0
-//@   loop 1 (startIndex < exprLen) invariant 0 <= startIndex && live(tree, scopeIndex) && exprLen == len(expr)
-//@   loop 2 (nextScopeIndex != InvalidIndex) invariant (nextScopeIndex == InvalidIndex || live(tree, nextScopeIndex)) && exprLen == len(expr) && exprLen == 4
+//@   modifies relCalls, relScope, relPtr, relLen, relRes
+//@   ensures rooted: len(expr) > 1 && expr[0] == 92 && scopeIndex != InvalidIndex ==> relCalls == old(relCalls) + 1 && relScope[old(relCalls)] == 0 && relPtr[old(relCalls)] == dataptr(expr) + 1 && relLen[old(relCalls)] == len(expr) - 1 && r == relRes[old(relCalls)]
+//@   ensures multi: len(expr) > 4 && expr[0] != 92 && expr[0] != 94 && scopeIndex != InvalidIndex ==> relCalls == old(relCalls) + 1 && relScope[old(relCalls)] == scopeIndex && relPtr[old(relCalls)] == dataptr(expr) && relLen[old(relCalls)] == len(expr) && r == relRes[old(relCalls)]
+//@   ensures single: len(expr) <= 4 && (len(expr) == 0 || (expr[0] != 92 && expr[0] != 94)) ==> relCalls == old(relCalls)
+//@   ensures caret: len(expr) >= 1 && expr[0] == 94 ==> relCalls == old(relCalls) || (relCalls == old(relCalls) + 1 && r == relRes[old(relCalls)])
+//@   ensures caretname: len(expr) >= 1 && expr[0] == 94 && expr[len(expr)-1] != 94 && r != InvalidIndex ==> relCalls == old(relCalls) + 1
+//@   loop 1 (startIndex < exprLen) invariant 0 <= startIndex && live(tree, scopeIndex) && exprLen == len(expr) && relCalls == old(relCalls) && forall(k, int, 0 <= k && k < startIndex ==> expr[k] == 94)
+//@   loop 2 (nextScopeIndex != InvalidIndex) invariant (nextScopeIndex == InvalidIndex || live(tree, nextScopeIndex)) && exprLen == len(expr) && exprLen == 4 && relCalls == old(relCalls)
 //@   loop 3 (nextIndex != InvalidIndex) invariant (nextIndex == InvalidIndex || live(tree, nextIndex)) && live(tree, nextScopeIndex) && exprLen == len(expr) && exprLen == 4
 //@   loop 4 (byteIndex < amlNameLen) invariant 0 <= byteIndex && byteIndex <= 4 && live(tree, nextIndex) && obj == ob(tree, nextIndex) && live(tree, nextScopeIndex) && exprLen == len(expr) && exprLen == 4
 
